@@ -6,7 +6,7 @@
    UTF-8-sig, Latin-1 and cp1252 are proved to satisfy it (C15_codecs_good). *)
 From Coq Require Import List NArith Bool.
 From N0 Require Import Base.PyStr Base.PyVal Files.Bytes Files.Util Files.BytesProofs
-  Files.SaveLoad Files.SaveLoadProofs.
+  Files.SaveLoad Files.SaveLoadProofs Files.OverwriteProofs.
 Import ListNotations.
 Local Open Scope N_scope.
 
@@ -130,6 +130,26 @@ Theorem C15_unclosed_keeps_nothing_partial :
   save_file_gen false disk p m c eol = Ok d -> d = Some [] \/ d = Some (content disk).
 Proof. exact unclosed_keeps_nothing. Qed.
 Print Assumptions C15_unclosed_keeps_nothing_partial.
+
+(* Overwriting is complete: in every truncating mode of the quantifier the
+   outcome of save_file - the bytes on disk, or the exception - is the same
+   whatever the file held before (missing, empty, shorter, longer): every
+   payload kind, codec and EOL. *)
+Theorem C15_overwrite_ignores_previous :
+  forall close d1 d2 p m c eol,
+  mode_kind m = Some MWrite ->
+  save_file_gen close d1 p m c eol = save_file_gen close d2 p m c eol.
+Proof. exact overwrite_ignores_previous. Qed.
+Print Assumptions C15_overwrite_ignores_previous.
+
+(* ... and in any mode the previous file matters only through its bytes (a
+   missing file and an empty one are indistinguishable) *)
+Theorem C15_save_depends_on_content_only :
+  forall close d1 d2 p m c eol,
+  content d1 = content d2 ->
+  save_file_gen close d1 p m c eol = save_file_gen close d2 p m c eol.
+Proof. exact save_depends_on_content_only. Qed.
+Print Assumptions C15_save_depends_on_content_only.
 
 (* The hypotheses on the codec are satisfiable by the codecs the correspondence
    check validates against CPython. *)
